@@ -90,7 +90,33 @@ func modelInt(m map[string]string, key string) (*big.Int, bool) {
 
 // concreteParam builds the Go expression and the concrete value of a parameter from the model.
 func concreteParam(m map[string]string, term string, t types.Type) (string, interface{}, bool) {
+	return concreteParamPkg(m, term, t, nil)
+}
+
+func concreteParamPkg(m map[string]string, term string, t types.Type, home *types.Package) (string, interface{}, bool) {
 	t = types.Unalias(t)
+	if n, ok := t.(*types.Named); ok {
+		if stt, ok := n.Underlying().(*types.Struct); ok && home != nil && n.Obj().Pkg() == home {
+			if srt := SortOf(t); srt != nil && srt.Kind == KData && srt != SCoin && srt != SDec {
+				var parts []string
+				cs := cStruct{Fields: map[string]interface{}{}}
+				for i := 0; i < stt.NumFields(); i++ {
+					f := stt.Field(i)
+					if !f.Exported() {
+						continue
+					}
+					sub := "(" + selName(srt.Name, f.Name()) + " " + term + ")"
+					ex, val, ok := concreteParamPkg(m, sub, f.Type(), home)
+					if !ok {
+						return "", nil, false
+					}
+					parts = append(parts, f.Name()+": "+ex)
+					cs.Fields[f.Name()] = val
+				}
+				return n.Obj().Name() + "{" + strings.Join(parts, ", ") + "}", cs, true
+			}
+		}
+	}
 	switch namedPath(t) {
 	case "cosmossdk.io/math.Int":
 		b, ok := modelInt(m, term)
@@ -164,8 +190,12 @@ func tryReplay(cfg *PropConfig, r *NamedResult, repo, verif string, rec map[stri
 		return "not-attempted", "no program"
 	}
 	p := o.prog
-	fn := p.findFunc(o.Unit)
-	c := p.contracts[o.Unit]
+	ukey := o.Unit
+	if i := strings.Index(ukey, ":"); i >= 0 {
+		ukey = ukey[i+1:]
+	}
+	fn := p.findFunc(ukey)
+	c := p.contracts[ukey]
 	if fn == nil || c == nil {
 		return "not-attempted", "obligation is not attached to a function under contract"
 	}
@@ -176,7 +206,7 @@ func tryReplay(cfg *PropConfig, r *NamedResult, repo, verif string, rec map[stri
 	var argExprs []string
 	env := map[string]interface{}{}
 	for _, prm := range fn.Params {
-		ex, val, ok := concreteParam(model, "in_"+prm.Name(), prm.Type())
+		ex, val, ok := concreteParamPkg(model, "in_"+prm.Name(), prm.Type(), fn.Pkg.Pkg)
 		if !ok {
 			return "not-attempted", fmt.Sprintf("parameter %s of type %s cannot be rebuilt from a model (keeper/world functions have no replay harness)", prm.Name(), prm.Type())
 		}
@@ -196,7 +226,10 @@ func tryReplay(cfg *PropConfig, r *NamedResult, repo, verif string, rec map[stri
 	}
 	call := fn.Name() + "(" + strings.Join(argExprs, ", ") + ")"
 	if recv := fn.Signature.Recv(); recv != nil {
-		return "not-attempted", "method receivers are not rebuilt from models"
+		if len(argExprs) == 0 {
+			return "not-attempted", "method receiver missing"
+		}
+		call = "(" + argExprs[0] + ")." + fn.Name() + "(" + strings.Join(argExprs[1:], ", ") + ")"
 	}
 	pkgDir := ""
 	for _, pk := range p.pkgs {
@@ -569,6 +602,14 @@ func (ce *concEval) eval(e *Expr) (interface{}, error) {
 			return out, true
 		}
 		switch e.Name {
+		case "ufb":
+			if len(args) == 2 {
+				if n, ok := args[0].(string); ok && n == "denom_valid" {
+					if d, ok := args[1].(string); ok {
+						return regexp.MustCompile(`^[a-zA-Z][a-zA-Z0-9/:._-]{2,127}$`).MatchString(d), nil
+					}
+				}
+			}
 		case "raw":
 			if d, ok := args[0].(cDec); ok {
 				return d.Raw, nil
